@@ -657,6 +657,14 @@ run_b(const char *path)
                                         }
                                 }
                                 /* leave nothing behind for the next case */
+                                if (m && !fault_sig && (uint32_t) v.f[16] == IMB_CIPHER_CUSTOM && status != IMB_STATUS_INVALID_ARGS) {
+                                        /* KNOWN LIBRARY DEFECT (see mode m, "custom cipher + in-flight hash"): flushing a
+                                         * custom-cipher job re-submits it to the hash manager and leaves a stale lane behind
+                                         * that later writes a digest through a recycled descriptor.  Do not let it poison
+                                         * the following cases: start from a fresh manager. */
+                                        mgrs[mi].mgr = make_mgr(&mgrs[mi]);
+                                        m = mgrs[mi].mgr;
+                                }
                                 if (m && !fault_sig) {
                                         int guard = 0;
                                         while (IMB_FLUSH_JOB(m) != NULL && guard++ < 512)
@@ -818,6 +826,49 @@ run_m_one(const struct mgrdesc *d, IMB_MGR *m)
                         flushed++;
                 ok = (qs > 128 && avail < 128 && r2 == 0 && e == IMB_ERR_QUEUE_SPACE && flushed == (int) qs) && good_burst(m);
                 m_line(d->name, "submit_burst(n>space)", ok, (int) r2, e, IMB_ERR_QUEUE_SPACE, extra);
+        }
+        /* 6b. a VALID custom-cipher job chained with a multi-buffer hash that is still in flight when
+         *     the queue is flushed must be processed exactly once: afterwards the manager is empty,
+         *     so a single fresh HMAC-SHA-512 job cannot complete at submission time */
+        {
+                static uint8_t t1[64], t2[64], pad[128], buf[64];
+                IMB_JOB *j = IMB_GET_NEXT_JOB(m), *r, *first;
+                int nret = 0;
+                memset(j, 0, sizeof(*j));
+                j->cipher_mode = IMB_CIPHER_CUSTOM;
+                j->cipher_func = custom_cipher;
+                j->cipher_direction = IMB_DIR_ENCRYPT;
+                j->chain_order = IMB_ORDER_CIPHER_HASH;
+                j->hash_alg = IMB_AUTH_HMAC_SHA_512;
+                j->src = buf;
+                j->dst = buf;
+                j->msg_len_to_hash_in_bytes = 45;
+                j->auth_tag_output = t1;
+                j->auth_tag_output_len_in_bytes = 32;
+                j->u.HMAC._hashed_auth_key_xor_ipad = pad;
+                j->u.HMAC._hashed_auth_key_xor_opad = pad + 64;
+                first = j;
+                if (IMB_SUBMIT_JOB(m))
+                        nret++;
+                while (IMB_FLUSH_JOB(m))
+                        nret++;
+                j = IMB_GET_NEXT_JOB(m);
+                *j = *first;
+                j->cipher_mode = IMB_CIPHER_NULL;
+                j->auth_tag_output = t2;
+                r = IMB_SUBMIT_JOB(m);
+                ok = (nret == 1 && r == NULL);
+                char extra[96];
+                snprintf(extra, sizeof(extra), "returned=%d next-submit-returns=%s", nret, r ? (r == j ? "itself" : "ANOTHER-JOB") : "NULL");
+                while (IMB_FLUSH_JOB(m))
+                        ;
+                m_line(d->name, "custom cipher + in-flight hash", ok, nret, 0, 0, extra);
+                if (!ok) {
+                        /* continue the remaining checks on a clean manager */
+                        IMB_MGR *fresh = make_mgr(d);
+                        if (fresh)
+                                m = fresh;
+                }
         }
         /* 7. synchronous cipher burst with an invalid job in the middle / NULL array / bad cipher */
         {
